@@ -26,6 +26,9 @@ def check(prog, run):
     except (AnchorMissing, L.Unanalysable) as e:
         run.bad("R1", "anchor", str(e))
         return
+    run.rule("R4", "video presentation times keep their place relative to audio: the video ctts holds pts - dts of every sample and is present whenever any offset is non-zero (C03.R5 instances)")
+    run.rule("R3", "no drift between the tracks: audio and video timestamps go through the one stateless tick conversion of the call's own timestamp (C03.R1 instances), so no per-call rounding error accumulates on one track")
+    c03.tick_rule(m.cx, run, "R3")
     n = 0
     for lf in m.leaves:
         if not m.audio_present(lf):
@@ -34,6 +37,10 @@ def check(prog, run):
         segs = m.spec(lf)
         key = m.key(lf)
         for kind, trak in c01.traks(segs):
+            if kind == "video":
+                # the picture's place on the common timeline: composition offsets are pts - dts and present whenever one is non-zero
+                from . import c15
+                c03.ctts_rule(c15._Map(run, {"R5": "R4"}), key, trak, m, m.vq)
             if kind != "audio":
                 continue
             paths = [B.path_str(p) for (p, b, c) in B.walk_boxes(trak[2])]
